@@ -476,6 +476,29 @@ func runC16(c *fw.Ctx) {
 					{{Kind: "SetClock", Clock: c16Clock + 999}, gcH},
 					{{Kind: "SetClock", Clock: c16Clock - 1}, gcH},
 				}
+				// the schema changes BETWEEN two passes (the second pass must judge by the rule in force then): the rule of
+				// g is replaced by each of two other rules / removed, g is dropped and created again with another rule, a new
+				// family with a rule appears; a write after the change makes the second pass mandatory
+				if mask == 15 || mask == 5 {
+					ri := 0
+					for i, r := range rules {
+						if r == rule {
+							ri = i
+						}
+					}
+					wrAll := bt.Op{Kind: "MutateRow", Table: tblT, Key: []byte("r2"), Muts: muts}
+					for _, r2 := range []*bt.GC{rules[(ri+1)%len(rules)], rules[(ri+4)%len(rules)], nil} {
+						if r2 == rule {
+							continue
+						}
+						upd := bt.Op{Kind: "ModifyFamilies", Table: tblT, Mods: []bt.Mod{{ID: "g", Op: "update", GC: r2}}}
+						recr := bt.Op{Kind: "ModifyFamilies", Table: tblT, Mods: []bt.Mod{{ID: "g", Op: "drop"}, {ID: "g", Op: "create", GC: r2}}}
+						newf := bt.Op{Kind: "ModifyFamilies", Table: tblT, Mods: []bt.Mod{{ID: "h", Op: "create", GC: r2}}}
+						wrH := bt.Op{Kind: "MutateRow", Table: tblT, Key: []byte("r2"), Muts: []bt.Mut{mset("h", "c", c16Cutoff-1000, "h0"), mset("h", "c", c16Cutoff, "h1"), mset("h", "c", c16Cutoff+1000, "h2"), mset("h", "c", c16Cutoff+2000, "h3")}}
+						progs = append(progs, []bt.Op{gcH, upd, wrAll, gcH}, []bt.Op{gcH, wrAll, upd, wr, gcH}, []bt.Op{gcH, recr, wrAll, gcH}, []bt.Op{gcH, newf, wrH, gcH},
+							[]bt.Op{upd, wr, gcH})
+					}
+				}
 				adv := bt.Op{Kind: "Advance", Adv: int64(time.Hour)}
 				noReadProgs := [][]bt.Op{
 					{adv, rd, gcM},     // written an hour ago but read a minute ago: in active use
@@ -537,30 +560,65 @@ func runC16(c *fw.Ctx) {
 				}
 			}
 		}
-		// 250 rows: the pass releases and re-takes the lock (sequentially)
-		item++
-		if c.Mine(item) {
-			ops := []bt.Op{{Kind: "SetClock", Clock: c16Clock}, {Kind: "CreateTable", Parent: parentI, TableID: "t", Fams: map[string]*bt.GC{"g": {Kind: "maxver", N: 1}}}}
-			for i := 0; i < 250; i++ {
-				ops = append(ops, bt.Op{Kind: "MutateRow", Table: tblT, Key: []byte(fmt.Sprintf("k%03d", i)), Muts: []bt.Mut{mset("g", "c", 2000, "new"), mset("g", "c", 1000, "old")}})
-			}
-			ops = append(ops, bt.Op{Kind: "GC", Adv: int64(time.Hour)})
-			cs := c16Case{Engine: eng, Ops: ops}
-			w := newBTWorld(c, eng)
-			w.stateCheck = false
-			bad := ""
-			for i := range ops[:len(ops)-1] {
-				w.model.Apply(&ops[i], nil, vtime.Cur())
-				w.drv.Apply(&ops[i])
-			}
-			w.drv.Apply(&ops[len(ops)-1])
-			w.model.GCTable(w.model.Tables[tblT])
-			bad = w.CompareState()
-			w.Close()
-			c.Eval(1)
-			c.Trace(1)
-			if bad != "" {
-				c.Violate(fmt.Sprintf("C16:%s:gc:250rows", eng), "250-row table after a GC pass: "+bad, cs, nil)
+		// 250 (and 1 100) rows: the pass releases and re-takes the lock (sequentially). Variants: which rows lose ALL their cells
+		// in the pass (the row the pass stood on when it gave up the lock is gone when it continues), which lose none
+		for variant := 0; variant < 8; variant++ {
+			item++
+			if c.Mine(item) {
+				grule := &bt.GC{Kind: "maxver", N: 1}
+				if variant > 0 {
+					grule = &bt.GC{Kind: "maxage", AgeSec: 1}
+				}
+				nrows := 250
+				if variant == 7 {
+					nrows = 1100
+				}
+				ops := []bt.Op{{Kind: "SetClock", Clock: c16Clock}, {Kind: "CreateTable", Parent: parentI, TableID: "t", Fams: map[string]*bt.GC{"g": grule}}}
+				for i := 0; i < nrows; i++ {
+					muts := []bt.Mut{mset("g", "c", 2000, "new"), mset("g", "c", 1000, "old")}
+					if variant > 0 {
+						emptied := false
+						switch variant {
+						case 1:
+							emptied = i%100 == 99
+						case 2:
+							emptied = i%100 == 0
+						case 3:
+							emptied = i >= 95 && i <= 105
+						case 4:
+							emptied = i%2 == 1
+						case 5:
+							emptied = i%50 == 49 || i%64 == 63 || i%128 == 0
+						case 6:
+							emptied = i < 120
+						case 7:
+							emptied = i%100 == 99 || i%256 == 255 || i%1000 == 999 || i%1024 == 1023
+						}
+						muts = []bt.Mut{mset("g", "c", c16Cutoff-1000, "old"), mset("g", "d", c16Cutoff-2000, "older")}
+						if !emptied {
+							muts = append(muts, mset("g", "c", c16Cutoff+1000, "new"))
+						}
+					}
+					ops = append(ops, bt.Op{Kind: "MutateRow", Table: tblT, Key: []byte(fmt.Sprintf("k%04d", i)), Muts: muts})
+				}
+				ops = append(ops, bt.Op{Kind: "GC", Adv: int64(time.Hour)})
+				cs := c16Case{Engine: eng, Ops: ops}
+				w := newBTWorld(c, eng)
+				w.stateCheck = false
+				bad := ""
+				for i := range ops[:len(ops)-1] {
+					w.model.Apply(&ops[i], nil, vtime.Cur())
+					w.drv.Apply(&ops[i])
+				}
+				w.drv.Apply(&ops[len(ops)-1])
+				w.model.GCTable(w.model.Tables[tblT])
+				bad = w.CompareState()
+				w.Close()
+				c.Eval(1)
+				c.Trace(1)
+				if bad != "" {
+					c.Violate(fmt.Sprintf("C16:%s:gc:250rows:v%d", eng, variant), fmt.Sprintf("%d-row table (variant %d) after a GC pass: ", nrows, variant)+bad, cs, nil)
+				}
 			}
 		}
 	}
